@@ -163,8 +163,13 @@ def body_slim(case):
             th = 0          # relative cut undefined on an all-zero interaction core (see ASSUMPTIONS)
             lab.add('threshold_reset')
     G = reference_generator(sizes, single, two)
-    op = slim.slim_mme(list(sizes), [[list(r) for r in s] for s in single], [[list(r) for r in t] for t in two], threshold=th)
+    a_sizes, a_single, a_two = list(sizes), [[list(r) for r in s] for s in single], [[list(r) for r in t] for t in two]
+    op = slim.slim_mme(a_sizes, a_single, a_two, threshold=th)
     check_generator(op, sizes, G, lab)
+    # the same argument lists once more: a second call sees what the first one left behind in them
+    op2 = slim.slim_mme(a_sizes, a_single, a_two, threshold=th)
+    close(dense.matrix(op2.cores), dense.matrix(op.cores), 1e-13, float(np.max(np.abs(G))) or 1.0, 'repeatable',
+          'second call with the same argument lists')
     if case['cyclic']:
         bond_ranks = [op.ranks[k] for k in range(1, d)]
         if len(set(bond_ranks)) > 1:
@@ -186,8 +191,12 @@ def body_hom(case):
         th = 0
     nb = d if case['cyclic'] else d - 1
     G = reference_generator(sizes, [single] * d, [two] * nb)
-    op = slim.slim_mme_hom(list(sizes), [list(r) for r in single], [list(r) for r in two], cyclic=case['cyclic'], threshold=th)
+    a_sizes, a_single, a_two = list(sizes), [list(r) for r in single], [list(r) for r in two]
+    op = slim.slim_mme_hom(a_sizes, a_single, a_two, cyclic=case['cyclic'], threshold=th)
     check_generator(op, sizes, G, lab)
+    op2 = slim.slim_mme_hom(a_sizes, a_single, a_two, cyclic=case['cyclic'], threshold=th)
+    close(dense.matrix(op2.cores), dense.matrix(op.cores), 1e-13, float(np.max(np.abs(G))) or 1.0, 'repeatable',
+          'second call with the same argument lists')
     if not single or not two:
         lab.add('empty_list')
     return lab
